@@ -1549,3 +1549,467 @@ Proof.
     assert (Hex : existsb invalid_const (s_attrs s) = true) by (apply existsb_exists; exists (n, u); split; assumption).
     congruence.
 Qed.
+
+(* ================================================================== _apply_default_and_update_required_... *)
+
+Lemma pyval_eqb_refl v : pyval_eqb v v = true.
+Proof.
+  induction v using pyval_ind'; cbn [pyval_eqb]; try reflexivity.
+  - destruct b; reflexivity.
+  - destruct n; cbn [num_struct_eqb]; rewrite ?Z.eqb_refl; reflexivity.
+  - apply pystr_eqb_refl.
+  - induction H as [|x t Hx _ IH]; [reflexivity|]. rewrite Hx. exact IH.
+  - induction H as [|x t Hx _ IH]; [reflexivity|]. rewrite Hx. exact IH.
+  - induction H as [|x t Hx _ IH]; [reflexivity|]. rewrite Hx. exact IH.
+  - rewrite Bool.eqb_reflx, Nat.eqb_refl. cbn [andb].
+    assert (Hall : forall m, (forall x, In x l -> In x m) ->
+              (fix all_in (l0 : list pyval) : bool :=
+                 match l0 with [] => true | x :: l' => existsb (fun y => pyval_eqb x y) m && all_in l' end) l = true).
+    { intros m. induction H as [|x t Hx _ IH]; intro Hsub; [reflexivity|].
+      rewrite IH by (intros y Hy; apply Hsub; right; exact Hy). rewrite andb_true_r.
+      apply existsb_exists. exists x. split; [apply Hsub; left; reflexivity|exact Hx]. }
+    apply Hall. auto.
+  - induction H as [|[k x] t [Hk Hx] _ IH]; [reflexivity|]. cbn [fst snd] in *. rewrite Hk, Hx. exact IH.
+  - rewrite pystr_eqb_refl, pystr_eqb_refl. cbn [andb]. exact IHv.
+  - rewrite pystr_eqb_refl, Nat.eqb_refl. cbn [andb].
+    assert (Hall : forall m, (forall p, In p attrs -> In p m) ->
+              (fix all_at (l : list (pystr * pyval)) : bool :=
+                 match l with
+                 | [] => true
+                 | (k, x) :: l' => existsb (fun p => pystr_eqb k (fst p) && pyval_eqb x (snd p)) m && all_at l'
+                 end) attrs = true).
+    { intros m. induction H as [|[k x] t Hx _ IH]; intro Hsub; [reflexivity|]. cbn [snd] in Hx.
+      rewrite IH by (intros y Hy; apply Hsub; right; exact Hy). rewrite andb_true_r.
+      apply existsb_exists. exists (k, x). split; [apply Hsub; left; reflexivity|]. cbn [fst snd].
+      rewrite pystr_eqb_refl, Hx. reflexivity. }
+    apply Hall. auto.
+  - rewrite !pystr_eqb_refl. reflexivity.
+Qed.
+
+Lemma unchanged_refl v : dv_unchanged v v = Ok tt.
+Proof. unfold dv_unchanged. rewrite pyval_eqb_refl. reflexivity. Qed.
+
+(* Field / Constant objects of the class body: member n is the object "field:n"; a Field has the attribute
+   _default (None, the literal, or the parameterless function), a Constant has none *)
+Definition fld_prefix : pystr := s2p "field:".
+Definition fobj (n : pystr) : pystr := fld_prefix ++ n.
+Definition fld_ref (n : pystr) : pyval := ref (fobj n).
+
+Fixpoint strip_prefix (p s : pystr) : option pystr :=
+  match p, s with
+  | [], _ => Some s
+  | x :: p', y :: s' => if N.eqb x y then strip_prefix p' s' else None
+  | _ :: _, [] => None
+  end.
+
+Lemma strip_prefix_app p n : strip_prefix p (p ++ n) = Some n.
+Proof. induction p as [|x p IH]; [reflexivity|]. cbn [app strip_prefix]. rewrite N.eqb_refl. exact IH. Qed.
+
+Lemma strip_prefix_inv p s n : strip_prefix p s = Some n -> s = p ++ n.
+Proof.
+  revert s. induction p as [|x p IH]; intros s H; [inversion H; reflexivity|].
+  destruct s as [|y s]; [discriminate|]. cbn [strip_prefix] in H. destruct (N.eqb_spec x y); [|discriminate].
+  subst. cbn [app]. f_equal. apply IH. exact H.
+Qed.
+
+Definition default_val (d : defval) : pyval := match d with DLit v => v | DFactory v => mk_function v end.
+Definition default_attr (d : option defval) : pyval := match d with None => PNone | Some d => default_val d end.
+Definition n__default : pystr := s2p "_default".
+
+Definition member_attr (m : member) (a : pystr) : option pyval :=
+  match m with
+  | MField fo => if pystr_eqb a n__default then Some (default_attr (fo_default fo)) else None
+  | MConst _ => None
+  end.
+
+Definition members_heap (base : heap) (ms : members) : heap :=
+  fun o a =>
+    match strip_prefix fld_prefix o with
+    | Some n =>
+        match alist_get ms n with
+        | Some m => match member_attr m a with Some v => Some v | None => base o a end
+        | None => base o a
+        end
+    | None => base o a
+    end.
+
+Definition heap_eq (h1 h2 : heap) : Prop := forall o a, h1 o a = h2 o a.
+
+Lemma members_heap_set base ms n fo fo' :
+  alist_get ms n = Some (MField fo) ->
+  heap_eq (heap_set (members_heap base ms) (fobj n) n__default (default_attr (fo_default fo')))
+          (members_heap base (alist_set ms n (MField fo'))).
+Proof.
+  intros Hg o a. unfold heap_set, members_heap.
+  destruct (pystr_eqb o (fobj n)) eqn:Eo.
+  - apply pystr_eqb_spec in Eo; subst o. unfold fobj. rewrite strip_prefix_app, alist_get_set_same.
+    cbn [member_attr]. destruct (pystr_eqb a n__default) eqn:Ea; cbn [andb]; [reflexivity|].
+    rewrite Hg. cbn [member_attr]. rewrite Ea. reflexivity.
+  - cbn [andb]. destruct (strip_prefix fld_prefix o) as [n'|] eqn:Es; [|reflexivity].
+    assert (n' <> n).
+    { intro; subst. apply strip_prefix_inv in Es. subst o. unfold fobj in Eo. rewrite pystr_eqb_refl in Eo. discriminate. }
+    rewrite alist_get_set_other by assumption. reflexivity.
+Qed.
+
+(* `_default = None` means "no default": [field_init] never leaves Some (DLit None) in a Field object *)
+Definition defaults_normal (ms : members) : bool :=
+  forallb (fun nm => match snd nm with
+                     | MField f => match fo_default f with Some (DLit PNone) => false | _ => true end
+                     | MConst _ => true
+                     end) ms.
+
+(* a literal `= value` default is plain data (None, bool, number, str, list, tuple, set, dict) *)
+Definition eqd_plain (d : defval) : bool := match d with DLit v => negb (is_object v) | DFactory _ => true end.
+
+Lemma set_remove_strs l n : str_in n l = true ->
+  dv_set_remove (PSet false (v_strs l)) (PStr n) = Ok (PSet false (v_strs (remove_str n l))).
+Proof.
+  intro H. cbn [dv_set_remove py_hashable']. rewrite py_in_strs, H. do 2 f_equal. unfold remove_str.
+  apply filter_strs. intro y. rewrite py_eq_str, pystr_eqb_sym. reflexivity.
+Qed.
+
+Lemma set_add_strs l n : dv_set_add (PSet false (v_strs l)) (PStr n) = Ok (PSet false (v_strs (add_str n l))).
+Proof.
+  cbn [dv_set_add py_hashable']. rewrite py_in_strs. unfold add_str. destruct (str_in n l); [reflexivity|].
+  unfold v_strs. rewrite map_app. reflexivity.
+Qed.
+
+Lemma remove_str_absent n l : str_in n l = false -> remove_str n l = l.
+Proof.
+  intro H. unfold remove_str. induction l as [|x t IH]; [reflexivity|]. cbn [str_in existsb] in H.
+  apply orb_false_iff in H as [H1 H2]. cbn [filter]. rewrite (pystr_eqb_sym x n), H1. cbn [negb]. f_equal. apply IH. exact H2.
+Qed.
+
+Lemma alist_has_defs (defs : list (pystr * defval)) n :
+  alist_has (map (fun nd => (fst nd, default_val (snd nd))) defs) n = alist_has defs n.
+Proof.
+  unfold alist_has. induction defs as [|[k d] t IH]; [reflexivity|]. cbn [map fst snd alist_get].
+  destruct (pystr_eqb k n); [reflexivity|exact IH].
+Qed.
+
+Lemma alist_get_defs (defs : list (pystr * defval)) n :
+  alist_get (map (fun nd => (fst nd, default_val (snd nd))) defs) n = option_map default_val (alist_get defs n).
+Proof.
+  induction defs as [|[k d] t IH]; [reflexivity|]. cbn [map fst snd alist_get].
+  destruct (pystr_eqb k n); [reflexivity|exact IH].
+Qed.
+
+Lemma alist_set_same_val {A} (l : list (pystr * A)) n v : alist_get l n = Some v -> alist_set l n v = l.
+Proof.
+  induction l as [|[k x] t IH]; cbn [alist_get alist_set]; [discriminate|].
+  destruct (pystr_eqb k n) eqn:E.
+  - intro H. inversion H; subst. apply pystr_eqb_spec in E. subst. reflexivity.
+  - intro H. f_equal. apply IH. exact H.
+Qed.
+
+Ltac use_tail H :=
+  let HT := fresh "HT" in
+  pose proof H as HT;
+  match type of HT with
+  | _ = ?R =>
+      match goal with
+      | |- context [bind ?T (fun s' => py_foldM _ _ s')] => replace T with R by (symmetry; exact HT)
+      end
+  end; clear HT.
+
+Section ApplyDefault.
+  Variable re_match : N -> pystr -> bool.
+  Variable e : env.
+  Variable so : set_order.
+  Variable X : ext_oracle.
+  Variable base : heap.
+  Variable s : classstmt.                       (* its _required / _optional *)
+  Variable defs : list (pystr * defval).        (* the `= value` of the annotated fields: cls_dict["_defaults"] *)
+  Variable ents : list (pystr * pyval).         (* the class dict *)
+  Variable pre : members.                       (* the Field / Constant objects the class body built *)
+
+  Definition v_defs : pyval := PDict (skeys (map (fun nd => (fst nd, default_val (snd nd))) defs)).
+
+  (* the model, one field after the other *)
+  Definition apply_step (ms : members) (n : pystr) : res members :=
+    match alist_get ms n with
+    | Some (MField fo) => fo' <- apply_eq_default re_match e fo (alist_get defs n) ;; Ok (alist_set ms n (MField fo'))
+    | Some (MConst _) => Ok ms
+    | None => Raise KeyError
+    end.
+
+  Fixpoint apply_all (ms : members) (ns : list pystr) : res members :=
+    match ns with
+    | [] => Ok ms
+    | n :: t => ms' <- apply_step ms n ;; apply_all ms' t
+    end.
+
+  (* the side conditions *)
+  Definition lit_ok (d : option defval) : bool := match d with Some (DLit (POther _ _)) => false | _ => true end.
+  Definition member_ok (nm : pystr * member) : bool :=
+    match snd nm with
+    | MField fo => lit_ok (fo_default fo)
+    | MConst _ => negb (alist_has defs (fst nm))
+    end.
+
+  Hypothesis Hso : so_ok so.
+  Hypothesis Hnd : NoDup (map fst pre).
+  Hypothesis Hnorm : defaults_normal pre = true.
+  Hypothesis Hmem : forallb member_ok pre = true.
+  Hypothesis Hdefs : forallb (fun nd => eqd_plain (snd nd)) defs = true.
+  Hypothesis Hbase : forall n, base (fobj n) n__default = None.
+  (* the class dict holds the member objects, _required and _optional as the statement gives them *)
+  Hypothesis Hent : forall n, In n (map fst pre) -> alist_get ents n = Some (fld_ref n).
+  Hypothesis Hreq : alist_get ents (s2p "_required") = option_map v_names (s_required s).
+  Hypothesis Hopt : alist_get ents (s2p "_optional") = option_map v_names (s_optional s).
+  (* Field._try_default_value(v): the field validates v (Fields/SetChain.v [vset]) and changes nothing else *)
+  Hypothesis HX : forall hh n fo v, alist_get pre n = Some (MField fo) ->
+    X (s2p "._try_default_value") hh [fld_ref n; v] =
+    match vset re_match e (fo_field fo) v with
+    | Ok _ => Ok (hh, PNone, [fld_ref n; v])
+    | Raise x => Raise x
+    end.
+
+  Definition apply_member (nm : pystr * member) : res (pystr * member) :=
+    match snd nm with
+    | MField fo => fo' <- apply_eq_default re_match e fo (alist_get defs (fst nm)) ;; Ok (fst nm, MField fo')
+    | MConst _ => Ok nm
+    end.
+
+  Notation rstep := (req_step (is_some (s_required s)) (opt_list (s_optional s))).
+
+  (* the loop of the source: the member objects and the required set evolve together *)
+  Fixpoint apply_all2 (ms : members) (r : list pystr) (ns : list pystr) : res (members * list pystr) :=
+    match ns with
+    | [] => Ok (ms, r)
+    | n :: t =>
+        ms' <- apply_step ms n ;;
+        match alist_get ms' n with
+        | Some m => apply_all2 ms' (rstep r (n, m)) t
+        | None => Raise KeyError
+        end
+    end.
+
+  Lemma alist_get_mid {A} (a b : list (pystr * A)) n x : ~ In n (map fst a) -> alist_get (a ++ (n, x) :: b) n = Some x.
+  Proof.
+    induction a as [|[k v] t IH]; cbn [app alist_get map fst In]; intro H.
+    - rewrite pystr_eqb_refl. reflexivity.
+    - destruct (pystr_eqb k n) eqn:E; [apply pystr_eqb_spec in E; subst; exfalso; apply H; left; reflexivity|].
+      apply IH. intro; apply H; right; assumption.
+  Qed.
+
+  Lemma alist_set_mid {A} (a b : list (pystr * A)) n x y :
+    ~ In n (map fst a) -> alist_set (a ++ (n, x) :: b) n y = a ++ (n, y) :: b.
+  Proof.
+    induction a as [|[k v] t IH]; cbn [app alist_set map fst In]; intro H.
+    - rewrite pystr_eqb_refl. reflexivity.
+    - destruct (pystr_eqb k n) eqn:E; [apply pystr_eqb_spec in E; subst; exfalso; apply H; left; reflexivity|].
+      f_equal. apply IH. intro; apply H; right; assumption.
+  Qed.
+
+  (* ... which is the model: every member gets its `=` default ([apply_eq_default]), then [own_required] *)
+  Lemma apply_all2_spec todo : forall done r, NoDup (map fst (done ++ todo)) ->
+    apply_all2 (done ++ todo) r (map fst todo) =
+    (own <- mapM apply_member todo ;; Ok (done ++ own, fold_left rstep own r)).
+  Proof.
+    induction todo as [|[n m] t IH]; intros done r Hnd'.
+    - cbn [map apply_all2 mapM bind fold_left]. reflexivity.
+    - assert (Hn : ~ In n (map fst done)).
+      { rewrite map_app in Hnd'. cbn [map fst] in Hnd'. apply NoDup_remove_2 in Hnd'. intro H. apply Hnd'. apply in_or_app. left. exact H. }
+      cbn [map fst apply_all2 mapM]. unfold apply_step. rewrite (alist_get_mid done t n m Hn). unfold apply_member at 1. cbn [fst snd].
+      destruct m as [fo|v].
+      + destruct (apply_eq_default re_match e fo (alist_get defs n)) as [fo'|x]; cbn [bind]; [|reflexivity].
+        rewrite (alist_set_mid done t n _ _ Hn), (alist_get_mid done t n _ Hn).
+        replace (done ++ (n, MField fo') :: t) with ((done ++ [(n, MField fo')]) ++ t) by (rewrite <- app_assoc; reflexivity).
+        rewrite IH.
+        * destruct (mapM apply_member t) as [own|x]; cbn [bind fold_left]; [|reflexivity]. rewrite <- app_assoc. reflexivity.
+        * rewrite <- app_assoc. cbn [app]. rewrite map_app in *. exact Hnd'.
+      + cbn [bind]. rewrite (alist_get_mid done t n _ Hn).
+        replace (done ++ (n, MConst v) :: t) with ((done ++ [(n, MConst v)]) ++ t) by (rewrite <- app_assoc; reflexivity).
+        rewrite IH.
+        * destruct (mapM apply_member t) as [own|x]; cbn [bind fold_left]; [|reflexivity]. rewrite <- app_assoc. reflexivity.
+        * rewrite <- app_assoc. cbn [app]. exact Hnd'.
+  Qed.
+
+  Lemma getattr_def_fld h n a d :
+    dv_getattr_def h (fld_ref n) a d = Ok (match h (fobj n) a with Some v => v | None => d end).
+  Proof. unfold fld_ref, ref. cbn [dv_getattr_def obj_getattr_def]. rewrite pystr_eqb_refl. reflexivity. Qed.
+
+  Lemma setattr_fld h n a v : dv_setattr h (fld_ref n) a v = Ok (heap_set h (fobj n) a v).
+  Proof. unfold fld_ref, ref. cbn [dv_setattr]. rewrite pystr_eqb_refl. reflexivity. Qed.
+
+  (* what the loop knows about the member objects while it runs *)
+  Definition good (n : pystr) (m : member) : Prop :=
+    match m with
+    | MField fo =>
+        (exists fo0, alist_get pre n = Some (MField fo0) /\ fo_field fo0 = fo_field fo) /\
+        match fo_default fo with Some (DLit PNone) => False | _ => True end /\ lit_ok (fo_default fo) = true
+    | MConst v => alist_has defs n = false
+    end.
+
+  Definition inv (ms : members) : Prop :=
+    (forall n m, alist_get ms n = Some m -> good n m) /\
+    (forall n, In n (map fst pre) -> alist_get ms n <> None).
+
+  Lemma inv_pre : inv pre.
+  Proof.
+    split.
+    - intros n m Hg. apply alist_get_In in Hg.
+      pose proof Hnorm as Hnorm'. pose proof Hmem as Hmem'. unfold defaults_normal in Hnorm'. rewrite forallb_forall in Hnorm', Hmem'.
+      specialize (Hnorm' _ Hg). specialize (Hmem' _ Hg). rename Hnorm' into Hn1. rename Hmem' into Hm1.
+      unfold member_ok in Hm1. cbn [fst snd] in Hn1, Hm1. destruct m as [fo|v]; cbn [good].
+      + split; [exists fo; split; [apply In_alist_get_NoDup; assumption|reflexivity]|].
+        split; [destruct (fo_default fo) as [[[]|]|]; try exact I; discriminate|exact Hm1].
+      + apply negb_true_iff in Hm1. exact Hm1.
+    - intros n Hn Hg. apply alist_get_None_notin in Hg. contradiction.
+  Qed.
+
+  Theorem apply_default_src :
+    match mapM apply_member pre with
+    | Ok own =>
+        exists h' req, Permutation req (own_required s own) /\ heap_eq h' (members_heap base own) /\
+          DefineSrc.apply_default_and_update_required so X (members_heap base pre) (PDict (skeys ents)) v_defs
+                                                       (v_names (map fst pre)) =
+          Ok (h', PNone, PDict (skeys (alist_set ents (s2p "_required") (v_names req))))
+    | Raise x =>
+        DefineSrc.apply_default_and_update_required so X (members_heap base pre) (PDict (skeys ents)) v_defs
+                                                     (v_names (map fst pre)) = Raise x
+    end.
+  Proof.
+    unfold DefineSrc.apply_default_and_update_required. cbv zeta.
+    rewrite !dict_get_skeys_def, Hreq, Hopt. cbn [bind].
+    assert (Er : dv_set_of so (deref (members_heap base pre) match option_map v_names (s_required s) with Some v => v | None => PList [] end)
+                 = Ok (PSet false (v_strs (dedup_str (opt_list (s_required s)))))).
+    { destruct (s_required s) as [l|]; cbn [option_map opt_list]; [unfold v_names; rewrite deref_list; apply set_of_list|reflexivity]. }
+    assert (Eo : dv_set_of so (deref (members_heap base pre) match option_map v_names (s_optional s) with Some v => v | None => PList [] end)
+                 = Ok (PSet false (v_strs (dedup_str (opt_list (s_optional s)))))).
+    { destruct (s_optional s) as [l|]; cbn [option_map opt_list]; [unfold v_names; rewrite deref_list; apply set_of_list|reflexivity]. }
+    rewrite Er, Eo. cbn [bind]. rewrite in_skeys. cbn [bind].
+    assert (Epd : alist_has ents (s2p "_required") = is_some (s_required s)).
+    { unfold alist_has. rewrite Hreq. destruct (s_required s); reflexivity. }
+    rewrite Epd. unfold v_names at 1. rewrite deref_list. cbn [dv_iter bind]. fold (v_strs (map fst pre)).
+    match goal with |- context [@dv_foldM ?S ?F] => set (BODY := F) end.
+    set (R0 := dedup_str (opt_list (s_required s))).
+    set (OPT := dedup_str (opt_list (s_optional s))).
+    assert (Hloop : forall ns, (forall n, In n ns -> In n (map fst pre)) ->
+              forall ms hcur r, heap_eq hcur (members_heap base ms) -> inv ms ->
+              match apply_all2 ms r ns with
+              | Ok (own, r') =>
+                  exists h', heap_eq h' (members_heap base own) /\
+                    dv_foldM BODY (v_strs ns) (hcur, PSet false (v_strs r)) = Ok (h', PSet false (v_strs r'))
+              | Raise x => dv_foldM BODY (v_strs ns) (hcur, PSet false (v_strs r)) = Raise x
+              end).
+    { induction ns as [|n t IH]; intros Hns ms hcur r Heq [Hgood Hpres].
+      - cbn [apply_all2]. exists hcur. split; [exact Heq|reflexivity].
+      - assert (Hn : In n (map fst pre)) by (apply Hns; left; reflexivity).
+        assert (Ht : forall k, In k t -> In k (map fst pre)) by (intros k Hk; apply Hns; right; exact Hk).
+        cbn [apply_all2 v_strs map]. fold (v_strs t). unfold dv_foldM at 1 2. cbn [py_foldM]. fold (@dv_foldM (heap * pyval)).
+        unfold BODY at 1 3. cbv beta iota. cbn [bind].
+        unfold v_defs. rewrite !deref_dict, in_skeys, alist_has_defs, !subscript_skeys, (Hent n Hn), alist_get_defs.
+        cbn [bind]. rewrite !getattr_def_fld.
+        (* the current object *)
+        unfold apply_step. destruct (alist_get ms n) as [m|] eqn:Egm; [|exfalso; exact (Hpres n Hn Egm)].
+        pose proof (Hgood n m Egm) as Hgm.
+        assert (Ehd : hcur (fobj n) n__default = match m with MField fo => Some (default_attr (fo_default fo)) | MConst _ => None end).
+        { rewrite Heq. unfold members_heap, fobj. rewrite strip_prefix_app, Egm. destruct m as [fo|v]; cbn [member_attr].
+          - rewrite pystr_eqb_refl. reflexivity.
+          - apply Hbase. }
+        change (s2p "_default") with n__default. rewrite Ehd.
+        (* the update of the required set, whatever the object has become *)
+        assert (Htail : forall hX m', hX (fobj n) n__default = match m' with MField fo => Some (default_attr (fo_default fo)) | MConst _ => None end ->
+                  good n m' ->
+                  (v_required_fields_41 <-
+                   (c <- (t35 <- dv_getattr_def hX (fld_ref n) n__default PNone;; Ok (py_is_not_none t35));;
+                    (if c
+                     then v_required_fields_37 <-
+                          (c0 <- dv_in (PStr n) (PSet false (v_strs r));;
+                           (if c0 then v_required_fields_36 <- dv_set_remove (PSet false (v_strs r)) (PStr n);; Ok v_required_fields_36
+                            else Ok (PSet false (v_strs r))));; Ok v_required_fields_37
+                     else v_required_fields_40 <-
+                          (if negb (py_truthy (deref hX (PBool (is_some (s_required s)))))
+                           then v_required_fields_39 <-
+                                (c0 <- py_not (dv_in (PStr n) (PSet false (v_strs (dedup_str (opt_list (s_optional s))))));;
+                                 (if c0 then v_required_fields_38 <- dv_set_add (PSet false (v_strs r)) (PStr n);; Ok v_required_fields_38
+                                  else Ok (PSet false (v_strs r))));; Ok v_required_fields_39
+                           else Ok (PSet false (v_strs r)));; Ok v_required_fields_40));;
+                   Ok (hX, v_required_fields_41)) = Ok (hX, PSet false (v_strs (rstep r (n, m'))))).
+        { intros hX m' EhX Hg'. rewrite getattr_def_fld, EhX. cbn [bind].
+          assert (Ehd' : py_is_not_none match (match m' with MField fo => Some (default_attr (fo_default fo)) | MConst _ => None end) with Some v => v | None => PNone end = has_default m').
+          { destruct m' as [fo'|cv']; [|reflexivity]. cbn [good] in Hg'. destruct Hg' as [_ [Hnn' _]]. cbn [has_default].
+            destruct (fo_default fo') as [[v|v]|]; cbn [default_attr default_val]; try reflexivity.
+            destruct v; try reflexivity. contradiction. }
+          rewrite Ehd'. unfold req_step. cbn [fst snd]. destruct (has_default m'); cbn [bind].
+          - rewrite in_set. cbn [bind]. destruct (str_in n r) eqn:Er'; cbn [bind].
+            + rewrite set_remove_strs by exact Er'. reflexivity.
+            + rewrite remove_str_absent by exact Er'. reflexivity.
+          - rewrite deref_bool. cbn [py_truthy]. destruct (is_some (s_required s)); cbn [negb bind]; [reflexivity|].
+            rewrite in_set, str_in_dedup. cbn [py_not bind]. destruct (str_in n (opt_list (s_optional s))); cbn [negb bind]; [reflexivity|].
+            rewrite set_add_strs. reflexivity. }
+        destruct m as [fo|cv].
+        + (* a Field *)
+          pose proof Hgm as Hgm0. cbn [good] in Hgm. destruct Hgm as [[fo0 [Hpre0 Hfld]] [Hnn Hlit]].
+          assert (Etr : py_truthy (deref hcur (default_attr (fo_default fo))) =
+                        match fo_default fo with Some d0 => defval_truthy d0 | None => false end).
+          { destruct (fo_default fo) as [[v|v]|]; cbn [default_attr default_val]; [|reflexivity|reflexivity].
+            cbn [lit_ok] in Hlit. destruct v; try reflexivity. discriminate. }
+          unfold apply_eq_default. destruct (alist_get defs n) as [d|] eqn:Ed.
+          * (* an `= value` default *)
+            unfold alist_has. rewrite Ed. cbn [option_map py_and py_not bind]. rewrite Etr.
+            destruct (match fo_default fo with Some d0 => defval_truthy d0 | None => false end) eqn:Et; cbn [negb bind].
+            -- (* the Field already has a truthy default *)
+               cbn [bind]. rewrite (alist_set_same_val ms n (MField fo) Egm), Egm.
+               use_tail (Htail hcur (MField fo) Ehd Hgm0). cbn [bind].
+               apply (IH Ht ms hcur _ Heq (conj Hgood Hpres)).
+            -- (* the `= value` becomes the default *)
+               assert (Hpl : eqd_plain d = true).
+               { pose proof Hdefs as Hd'. rewrite forallb_forall in Hd'. apply (Hd' (n, d)). apply alist_get_In. exact Ed. }
+               assert (Emut : (py_or (Ok (py_isinstance (deref hcur (default_val d)) [K_list]))
+                                (fun _ => py_or (Ok (py_isinstance (deref hcur (default_val d)) [K_dict]))
+                                   (fun _ => Ok (py_isinstance (deref hcur (default_val d)) [K_set])))) = Ok (defval_mutable d)).
+               { destruct d as [v|v]; cbn [default_val]; [|reflexivity]. cbn [eqd_plain] in Hpl.
+                 destruct v as [| | | | | | |[|]| | | |]; try reflexivity; discriminate. }
+               rewrite Emut. cbn [bind]. destruct (defval_mutable d); cbn [bind]; [reflexivity|].
+               assert (Eval : (c0 <- dv_callable hcur (default_val d);;
+                               (if c0 then t20 <- dv_call0 (default_val d);; Ok t20 else Ok (default_val d))) = Ok (defval_value d)).
+               { destruct d as [v|v]; cbn [default_val defval_value]; [|reflexivity]. cbn [eqd_plain] in Hpl.
+                 destruct v; try reflexivity; discriminate. }
+               rewrite Eval. cbn [bind]. rewrite (HX hcur n fo0 _ Hpre0). unfold try_default. rewrite <- Hfld.
+               destruct (vset re_match e (fo_field fo0) (defval_value d)) as [w|x]; cbn [bind]; [|reflexivity].
+               rewrite !unchanged_refl. cbn [bind]. rewrite ?deref_dict, ?subscript_skeys, ?(Hent n Hn), ?alist_get_defs, ?Ed.
+               cbn [option_map bind]. rewrite setattr_fld. cbn [bind].
+               rewrite alist_get_set_same.
+               set (fo' := {| fo_field := fo_field fo; fo_immutable := fo_immutable fo; fo_default := norm_default (Some d) |}).
+               assert (Edn : default_val d = default_attr (fo_default fo')).
+               { subst fo'. cbn [fo_default]. destruct d as [[]|v]; reflexivity. }
+               rewrite Hfld. fold fo'. rewrite Edn.
+               assert (Heq' : heap_eq (heap_set hcur (fobj n) n__default (default_attr (fo_default fo'))) (members_heap base (alist_set ms n (MField fo')))).
+               { intros o a. rewrite <- (members_heap_set base ms n fo fo' Egm o a). unfold heap_set. rewrite Heq. reflexivity. }
+               assert (Hg' : good n (MField fo')).
+               { cbn [good]. split; [exists fo0; split; [exact Hpre0|exact Hfld]|]. subst fo'. cbn [fo_default].
+                 destruct d as [v|v]; cbn [eqd_plain] in Hpl; [|split; [exact I|reflexivity]].
+                 destruct v; cbn [norm_default lit_ok]; try (split; [exact I|reflexivity]). discriminate. }
+               assert (EhX : heap_set hcur (fobj n) n__default (default_attr (fo_default fo')) (fobj n) n__default = Some (default_attr (fo_default fo'))).
+               { unfold heap_set. rewrite !pystr_eqb_refl. reflexivity. }
+               use_tail (Htail _ (MField fo') EhX Hg'). cbn [bind].
+               apply (IH Ht _ _ _ Heq').
+               split.
+               ++ intros k mk Hk. destruct (pystr_eqb k n) eqn:Ekn.
+                  ** apply pystr_eqb_spec in Ekn; subst k. rewrite alist_get_set_same in Hk. inversion Hk; subst mk. exact Hg'.
+                  ** rewrite alist_get_set_other in Hk by (intro; subst; rewrite pystr_eqb_refl in Ekn; discriminate). apply Hgood. exact Hk.
+               ++ intros k Hk Hnone. destruct (pystr_eqb k n) eqn:Ekn.
+                  ** apply pystr_eqb_spec in Ekn; subst k. rewrite alist_get_set_same in Hnone. discriminate.
+                  ** rewrite alist_get_set_other in Hnone by (intro; subst; rewrite pystr_eqb_refl in Ekn; discriminate). exact (Hpres k Hk Hnone).
+          * (* no `= value` *)
+            unfold alist_has. rewrite Ed. cbn [option_map py_and bind].
+            rewrite (alist_set_same_val ms n (MField fo) Egm), Egm.
+            use_tail (Htail hcur (MField fo) Ehd Hgm0). cbn [bind].
+            apply (IH Ht ms hcur _ Heq (conj Hgood Hpres)).
+        + (* a Constant *)
+          cbn [good] in Hgm. rewrite Hgm. cbn [py_and bind]. rewrite Egm.
+          use_tail (Htail hcur (MConst cv) Ehd Hgm). cbn [bind].
+          apply (IH Ht ms hcur _ Heq (conj Hgood Hpres)). }
+    specialize (Hloop (map fst pre) (fun n H => H) pre (members_heap base pre) R0 (fun o a => eq_refl) inv_pre).
+    pose proof (apply_all2_spec pre [] R0 Hnd) as Hspec. cbn [app] in Hspec. rewrite Hspec in Hloop. clear Hspec.
+    destruct (mapM apply_member pre) as [own|x]; cbn [bind] in Hloop.
+    - destruct Hloop as [h' [Heq' Hf]]. rewrite Hf. cbn [bind]. cbv beta iota.
+      cbn [dv_list_of dv_iter bind]. destruct (so_strs so (fold_left rstep own R0) Hso) as [req [Eso Hperm]].
+      rewrite Eso. cbn [bind]. rewrite setitem_skeys. cbn [bind].
+      exists h', req. split; [exact Hperm|]. split; [exact Heq'|reflexivity].
+    - unfold v_names. rewrite deref_list. cbn [dv_iter bind]. fold (v_strs (map fst pre)). rewrite Hloop. reflexivity.
+  Qed.
+End ApplyDefault.
